@@ -59,14 +59,15 @@ CLAIMED["C13"] = dict(
          "readyState rank never decreases; at most one open and one close event per channel, emitted exactly at "
          "the crossing steps; bufferedAmount of every live channel equals the queued user bytes not yet handed to "
          "the transport (never negative, zero when drained) under every congestion oracle; association end closes "
-         "every channel and empties table and queue; auto-chosen ids are unused and of the role's parity, live "
+         "every channel and empties table and queue; auto-chosen ids are unused and of the role's parity, the ids two "
+         "endpoints of opposite role would choose never coincide after any histories, live "
          "channels have pairwise distinct ids, closing never raises KeyError; a received OPEN yields exactly one "
          "datachannel event for an open channel with the opener's id and parameters, a repeated OPEN is ignored; "
          "close() on an open channel resets exactly its stream and the peer's response closes it and frees the id "
          "for immediate reuse; close() while the association is still being set up queues the stream reset, "
          "which is requested as soon as the association is established; negotiated channels register under their id, open exactly once when the association "
-         "is (or becomes) established, and a second channel with the id is refused (16 theorems). PARTIAL: cross-endpoint id disjointness and the two-endpoint close protocol are "
-         "observed only; the latter is refuted by known findings K4 (RE-CONFIG never retransmitted), K9 (reset request "
+         "is (or becomes) established, and a second channel with the id is refused (17 theorems). PARTIAL: the two-endpoint close protocol is "
+         "observed only; it is refuted by known findings K4 (RE-CONFIG never retransmitted), K9 (reset request "
          "processed before the DATA it follows), K10 (id reused before both directions are reset).",
     design_ref="5 / C13",
     note="Congestion state (is _outbound_queue empty after a _send), 'the handshake is in progress' at close() and UTF-8 validity are oracle inputs of the "
